@@ -223,49 +223,61 @@ theorem C14_model_meets_spec_form (inflate : Bytes → Option Bytes) (typ msg lo
   · have he' : rs.isEmpty = false := by simpa using he
     simp [he', formTemplate_fields_relay, instVal_hole, instVal_lit, fieldsOk, formVals, hesc, h60, hpe.1.2, hpe.2, hdel, hrelay]
 
-/-! ## 3. HTTP-Redirect and the artifact URL -/
+/-! ## 3. HTTP-Redirect and the artifact URL (`pack.add_query`) -/
 
 /-- Full statement (every destination): the receiver's query parameters are the destination's own
-    followed by exactly the intended ones.  False of the code as it is (known findings
-    `C14/redirect-destination-fragment`, `C14/redirect-destination-empty-query`). -/
+    followed by exactly the intended ones.  False of the code as it is for one class of
+    destinations only: a non-empty query that ends in `?` (`C14/add-query-trailing-question-mark`).
+    Fragments and empty queries are handled. -/
 def C14_url_inert_full : Prop :=
   ∀ (D : Deflate) (typ msg loc rs url : Bytes), (typ = sSAMLRequest ∨ typ = sSAMLResponse) →
-    IsBytes msg → IsBytes rs → redirectUrl D.deflate true typ msg loc rs = some url →
+    IsBytes msg → IsBytes rs → redirectUrl D.deflate typ msg loc rs = some url →
     parseQsl (queryOf url) = parseQsl (queryOf loc) ++ withRelay (typ, b64encode (D.deflate msg)) rs
 
-/-- **Inertness of the URL** for every destination without `#` whose `?`, if any, is followed by
-    a non-empty query (`locOk`), ANY relay state and message: no caller string adds, removes or
-    changes a query parameter. -/
+/-- **Inertness of the URL** for every destination — with or without `#fragment`, with no query,
+    an empty query or an existing query — whose own query does not end in `?` (`locOk`), ANY relay
+    state and message: no caller string adds, removes or changes a query parameter.  (`queryOf`
+    is what the receiver reads: the text between the first `?` and the first `#`.) -/
 theorem C14_url_inert_partial (D : Deflate) (typ msg loc rs url : Bytes)
     (ht : typ = sSAMLRequest ∨ typ = sSAMLResponse) (hmsg : IsBytes msg) (hrs : IsBytes rs)
-    (hloc : locOk loc = true) (h : redirectUrl D.deflate true typ msg loc rs = some url) :
+    (hloc : locOk loc = true) (h : redirectUrl D.deflate typ msg loc rs = some url) :
     parseQsl (queryOf url) = parseQsl (queryOf loc) ++ withRelay (typ, b64encode (D.deflate msg)) rs := by
   have htb : IsBytes typ := by rcases ht with e | e <;> subst e <;> decide
   have hargs : redirectArgs D.deflate typ msg rs = some (withRelay (typ, b64encode (D.deflate msg)) rs) := by
     simp [redirectArgs, ht]
-  simp only [redirectUrl, hargs, glueUrl, if_true] at h
+  simp only [redirectUrl, hargs] at h
   cases Option.some.inj h
   have hround := withRelay_roundtrip typ (b64encode (D.deflate msg)) rs htb
     (b64encode_isBytes _ (D.isBytes msg hmsg)) (b64encode_ne_nil _ (D.nonempty msg)) hrs
-  have := glue_spec loc _ _ (urlencode_no_hash _) hround hloc
+  have := addQuery_spec loc _ _ (urlencode_no_hash _) hround hloc
   simpa [specUrl] using this
 
+/-- Witness: destination `/?a?` (its query `a?` ends in `?`). -/
 theorem C14_url_inert_counterexample : ¬ C14_url_inert_full := by
   intro h
-  have := h toyDeflate sSAMLRequest [60] [35] [] _ (Or.inl rfl) (by decide) (by decide) rfl
+  have := h toyDeflate sSAMLRequest [60] [47, 63, 97, 63] [] _ (Or.inl rfl) (by decide) (by decide) rfl
   revert this
   decide
 
-/-- A second witness: a destination ending in `?`. -/
-example : ¬ (parseQsl (queryOf ((redirectUrl toyDeflate.deflate true sSAMLRequest [60] [47, 63] []).getD [])) =
-    parseQsl (queryOf [47, 63]) ++ withRelay (sSAMLRequest, b64encode (toyDeflate.deflate [60])) []) := by decide
+/-- The destinations that used to fail (fixed in 1ca38117) satisfy the side condition: a fragment,
+    a destination ending in `?`, a fragment after an empty query. -/
+example : locOk [104, 47, 35, 102] = true ∧ locOk [104, 47, 63] = true ∧ locOk [104, 63, 35, 63] = true ∧
+    locOk [104, 47, 63, 97, 61, 98] = true ∧ locOk [104, 47] = true ∧ locOk [104, 63, 97, 63] = false := by
+  decide
+
+/-- … and they are delivered: the old failing inputs, evaluated. -/
+example :
+    parseQsl (queryOf ((redirectUrl toyDeflate.deflate sSAMLRequest [60] [104, 47, 35, 102] [114]).getD [])) =
+      withRelay (sSAMLRequest, b64encode (toyDeflate.deflate [60])) [114] ∧
+    parseQsl (queryOf ((redirectUrl toyDeflate.deflate sSAMLRequest [60] [104, 47, 63] []).getD [])) =
+      withRelay (sSAMLRequest, b64encode (toyDeflate.deflate [60])) [] := by decide
 
 /-- **Round trip through the redirect URL** (under the `Deflate` law and `locOk`): the receiver
     finds the destination's own parameters, then the SAML parameter whose value `Entity.unravel`
     turns back into the message byte for byte, then RelayState iff one was given, unchanged. -/
 theorem C14_redirect_roundtrip (D : Deflate) (typ msg loc rs url : Bytes)
     (ht : typ = sSAMLRequest ∨ typ = sSAMLResponse) (hmsg : IsBytes msg) (hrs : IsBytes rs)
-    (hloc : locOk loc = true) (h : redirectUrl D.deflate true typ msg loc rs = some url) :
+    (hloc : locOk loc = true) (h : redirectUrl D.deflate typ msg loc rs = some url) :
     specRedirect D.inflate typ msg loc rs url = true := by
   apply specRedirect_of_params D.inflate typ msg loc rs url (b64encode (D.deflate msg))
     (C14_url_inert_partial D typ msg loc rs url ht hmsg hrs hloc h)
@@ -278,45 +290,42 @@ theorem C14_redirect_roundtrip (D : Deflate) (typ msg loc rs url : Bytes)
 /-- The model's URL satisfies the specification the driver evaluates on the implementation. -/
 theorem C14_model_meets_spec_redirect (D : Deflate) (typ msg loc rs url : Bytes)
     (ht : typ = sSAMLRequest ∨ typ = sSAMLResponse) (hmsg : IsBytes msg) (hrs : IsBytes rs)
-    (hloc : locOk loc = true) (h : redirectUrl D.deflate true typ msg loc rs = some url) :
+    (hloc : locOk loc = true) (h : redirectUrl D.deflate typ msg loc rs = some url) :
     specRedirect D.inflate typ msg loc rs url = true :=
   C14_redirect_roundtrip D typ msg loc rs url ht hmsg hrs hloc h
 
-example : locOk [104, 47, 63, 97, 61, 98] = true ∧ locOk [104, 47] = true ∧ locOk [104, 35] = false ∧ locOk [104, 63] = false := by
-  decide
-
-/-- The artifact URL (`use_http_artifact`): same statement for the `SAMLart` parameter. -/
-theorem C14_artifact_url_partial (art loc rs url : Bytes) (hart : IsBytes art) (hne : art ≠ []) (hrs : IsBytes rs)
-    (hloc : locOk loc = true) (h : artifactUrl true art loc rs = some url) :
-    specUrl loc (withRelay (sSAMLart, art) rs) url = true ∧ specArtifactUrl art loc rs url = true := by
-  simp only [artifactUrl, glueUrl, if_true] at h
-  cases Option.some.inj h
-  have := glue_spec loc _ _ (urlencode_no_hash _) (withRelay_roundtrip sSAMLart art rs isBytes_SAMLart hart hne hrs) hloc
-  exact ⟨this, by simp [specArtifactUrl, this]⟩
-
-/-- Full statement for the artifact URL (every destination): false for the same two classes of
-    destinations as the redirect URL (`use_http_artifact` chooses its glue the same way). -/
+/-- Full statement for the artifact URL (`use_http_artifact` calls the same `add_query`): false for
+    the same single class of destinations. -/
 def C14_artifact_url_full : Prop :=
-  ∀ (art loc rs url : Bytes), IsBytes art → art ≠ [] → IsBytes rs → artifactUrl true art loc rs = some url →
-    specUrl loc (withRelay (sSAMLart, art) rs) url = true
+  ∀ (art loc rs : Bytes), IsBytes art → art ≠ [] → IsBytes rs →
+    specUrl loc (withRelay (sSAMLart, art) rs) (artifactUrl art loc rs) = true
+
+/-- The artifact URL: same statement for the `SAMLart` parameter, fragments and empty queries
+    included. -/
+theorem C14_artifact_url_partial (art loc rs : Bytes) (hart : IsBytes art) (hne : art ≠ []) (hrs : IsBytes rs)
+    (hloc : locOk loc = true) :
+    specUrl loc (withRelay (sSAMLart, art) rs) (artifactUrl art loc rs) = true ∧
+      specArtifactUrl art loc rs (artifactUrl art loc rs) = true := by
+  have := addQuery_spec loc _ _ (urlencode_no_hash _) (withRelay_roundtrip sSAMLart art rs isBytes_SAMLart hart hne hrs) hloc
+  exact ⟨this, by simp [specArtifactUrl, artifactUrl, this]⟩
 
 theorem C14_artifact_url_counterexample : ¬ C14_artifact_url_full := by
   intro h
-  have := h [65] [47, 35, 102] [] _ (by decide) (by decide) (by decide) rfl
+  have := h [65] [47, 63, 63] [] (by decide) (by decide) (by decide)
   revert this
   decide
 
 /-- `http_redirect_message(typ="SAMLart")`: the artifact travels verbatim. -/
 theorem C14_redirect_art_roundtrip (deflate : Bytes → Bytes) (inflate : Bytes → Option Bytes) (art loc rs url : Bytes)
     (hart : IsBytes art) (hne : art ≠ []) (hrs : IsBytes rs) (hloc : locOk loc = true)
-    (h : redirectUrl deflate true sSAMLart art loc rs = some url) :
+    (h : redirectUrl deflate sSAMLart art loc rs = some url) :
     specRedirect inflate sSAMLart art loc rs url = true := by
   have hargs : redirectArgs deflate sSAMLart art rs = some (withRelay (sSAMLart, art) rs) := by
     have h1 : ¬ (sSAMLart = sSAMLRequest ∨ sSAMLart = sSAMLResponse) := by decide
     simp [redirectArgs, h1]
-  simp only [redirectUrl, hargs, glueUrl, if_true] at h
+  simp only [redirectUrl, hargs] at h
   cases Option.some.inj h
-  have := glue_spec loc _ _ (urlencode_no_hash _) (withRelay_roundtrip sSAMLart art rs isBytes_SAMLart hart hne hrs) hloc
+  have := addQuery_spec loc _ _ (urlencode_no_hash _) (withRelay_roundtrip sSAMLart art rs isBytes_SAMLart hart hne hrs) hloc
   apply specRedirect_of_params inflate sSAMLart art loc rs _ art (by simpa [specUrl] using this)
   simp
 
